@@ -53,6 +53,8 @@ func runC17(t *testing.T, e *worlds.Env, tier string) (bool, any) {
 	e.Run(t, func() func() bool {
 		e.N.Cfg = netKnobs(e)
 		e.N.KeepReads = true
+		// a transport that reports end-of-stream together with the last bytes (as TLS 1.2 does)
+		e.N.Cfg.EOFWithData = e.T.Prob(1, 3, "k-eof-with-data")
 		yieldKnob(e)
 		tp := e.T
 		rate = float64(tp.Pick("rate", 0, 1, 10, 1000, 100000, 10000000))
